@@ -517,7 +517,7 @@ func (g *a7buf) GoodA7Marshal(r interceptor.RTPReader) interceptor.RTPReader {
 			return n, attr, nil
 		}
 		m, err := g.held.MarshalTo(b)
-		return m, attr, err
+		return m, make(interceptor.Attributes), err
 	})
 }
 
@@ -533,7 +533,7 @@ func (g *a7buf) BadA7Len(r interceptor.RTPReader) interceptor.RTPReader {
 			return 0, attr, err
 		}
 		copy(b, raw)
-		return len(raw), attr, nil
+		return len(raw), make(interceptor.Attributes), nil
 	})
 }
 
